@@ -3,7 +3,7 @@
 (* ({a, args, res, post} per ABCI call, written by the Go harness) is judged *)
 (* against Chain!Step from the OBSERVED pre-state (DESIGN 5.3), and every    *)
 (* property monitor is evaluated on every observed state / step pair.        *)
-EXTENDS Abci, Json, IOUtils
+EXTENDS Paginate, Json, IOUtils
 
 Trace == ndJsonDeserialize(IOEnv.TRACE_FILE)
 
@@ -166,6 +166,7 @@ Judge(i) ==
                 \cup (IF ev.res.ok /\ ~ev.res.invOk THEN {<<i, "L1", "C15", "InvariantBrokenAfterImport">>} ELSE {})
                 \cup (IF ev.res.ok /\ ~ev.res.idempotent THEN {<<i, "L1", "C15", "SecondExportDiffers">>} ELSE {})
            ELSE {})
+     \cup (IF ev.a = "ListQueries" THEN { <<i, "L1", "C20", d>> : d \in ListFindings(ev.post, ev.res.lists) } ELSE {})
      \cup (IF "postOrig" \in DOMAIN ev /\ ev.a # "ExportImport" /\ ~Bisimilar(ev.post, ev.postOrig)
            THEN {<<i, "L1", "C15", "ReimportedChainDiverges">>} ELSE {})
      \cup (IF "resOrig" \in DOMAIN ev /\ ev.resOrig.ok # ev.res.ok THEN {<<i, "L1", "C15", "ReimportedChainResultDiffers">>} ELSE {})
